@@ -21,7 +21,7 @@ def world(case):
     from pyvaporation.mixtures import Composition
     from pyvaporation.permeance import Permeance
     from pyvaporation.optimizer.optimizer import Measurement, Measurements
-    c = procs.sanitize(dict(builtin=case.get('builtin', 'H2O_EtOH'), func='ideal_isothermal_process', N=3, mode=case.get('mode', 'temperature'), comp_type='molar', curves=case.get('curves', 'one')))
+    c = procs.sanitize(dict(builtin=case.get('builtin', 'H2O_EtOH'), func='ideal_isothermal_process', N=3, mode=case.get('mode', 'temperature'), comp_type='molar', curves=case.get('curves', 'one'), curve_type=case.get('curve_type', 'weight')))
     pv, mix, mem, dcs, cond, func, kw = procs.build(c)
     comps = [Composition(p, 'molar') for p in (0.0, 0.25, 0.6, 1.0)] + [Composition(0.3, 'weight')]
     perms = (Permeance(0.02), Permeance(1e-7, 'SI'))
@@ -78,8 +78,10 @@ def check(case):
     L = calls()
     fails = []
     hist = []
-    for step in range(case.get('length', 6)):
-        name, f = rng.choice(L)
+    forced = list(case.get('force', []))
+    byname = dict(L)
+    for step in range(max(case.get('length', 6), len(forced))):
+        name, f = (forced[step], byname[forced[step]]) if step < len(forced) else rng.choice(L)
         hist.append(name)
         try: got = strip(f(w))
         except (ValueError, KeyError) as e: got = 'raised ' + type(e).__name__
@@ -98,4 +100,13 @@ def check(case):
 
 def corpus(seed, n):
     rng = random.Random(seed)
-    return [dict(seed=seed * 1000 + i, length=rng.randint(2, 12) if i else 8, mode=rng.choice(['vacuum', 'temperature', 'pressure']), curves=rng.choice(['one', 'many'])) for i in range(n)]
+    out = [dict(seed=seed * 1000 + i, length=rng.randint(2, 12) if i else 8, mode=rng.choice(['vacuum', 'temperature', 'pressure']), curves=rng.choice(['one', 'many']),
+                curve_type='molar' if i % 3 == 2 else 'weight') for i in range(n)]
+    # forced histories: every model that takes a curve set, twice, on a curve set given in mole fractions (and on one in mass fractions)
+    forced = []
+    for ct in ('molar', 'weight'):
+        for curves in ('one', 'many'):
+            for nm in ('non-ideal isothermal', 'non-ideal non-isothermal', 'non-ideal curve'):
+                forced.append(dict(seed=seed * 1000 + 500 + len(forced), length=3, mode='vacuum', curves=curves, curve_type=ct, force=[nm, 'measurements', nm]))
+    out += forced[:3 if n < 6 else 12]
+    return out
